@@ -185,12 +185,33 @@ class Exec(object):
             ln = length if isinstance(length, int) else zint(length)
 
         def at(i, f=f):
-            t = f(i if not isinstance(i, int) else z3.IntVal(i))
+            zi_ = i if not isinstance(i, int) else z3.IntVal(i)
+            t = f(zi_)
             self.fact(z3.And(t >= 0, t <= 255))
+            if self.collect_facts is None:
+                seen = self.ghost.setdefault('at_idx', {}).setdefault(name, {})
+                if zi_.get_id() not in seen:
+                    seen[zi_.get_id()] = zi_
+                    ps = self.ghost.get('ps', {}).get(name)
+                    if ps is not None:
+                        self.fact(ps(zi_ + 1) == ps(zi_) + t)
             return t
         b = SBytes(ln, at, mutable, base=name)
         b.fn = f
+        b.origin = (f, 0, name)
         return b
+
+    def prefix_sum(self, f, name):
+        """PS(k) = sum of the first k bytes of input byte string f (uninterpreted,
+        unfolded by ground instances at every index that is inspected)"""
+        reg = self.ghost.setdefault('ps', {})
+        if name not in reg:
+            ps = z3.Function('psum!' + name, z3.IntSort(), z3.IntSort())
+            reg[name] = ps
+            self.fact(ps(0) == 0)
+            for zi_ in list(self.ghost.get('at_idx', {}).get(name, {}).values()):
+                self.fact(ps(zi_ + 1) == ps(zi_) + f(zi_))
+        return reg[name]
 
     def fact(self, t):
         """A fact that is true by construction of the encoding (byte ranges)."""
